@@ -997,6 +997,23 @@ Proof.
   rewrite (A i b E), Hpp. reflexivity.
 Qed.
 
+(* the ordered -arch list can be read back from either hashed argument list, the other lists being equal *)
+Lemma flow_c_arch p1 p2 :
+  pa_common p1 = pa_common p2 -> pa_profile p1 = pa_profile p2 ->
+  hashed_args expected_flow_c p1 = hashed_args expected_flow_c p2 -> pa_arch p1 = pa_arch p2.
+Proof.
+  unfold hashed_args, expected_flow_c. cbn [map concat seg_args]. intros Ec Ep E.
+  rewrite Ec, Ep in E. apply app_inv_head in E. rewrite !app_nil_r in E. apply app_inv_tail in E. exact E.
+Qed.
+
+Lemma flow_p_arch p1 p2 :
+  pa_pre p1 = pa_pre p2 -> pa_common p1 = pa_common p2 -> pa_profile p1 = pa_profile p2 -> pa_cwd p1 = pa_cwd p2 ->
+  hashed_args expected_flow_p p1 = hashed_args expected_flow_p p2 -> pa_arch p1 = pa_arch p2.
+Proof.
+  unfold hashed_args, expected_flow_p. cbn [map concat seg_args]. intros Er Ec Ep Ew E.
+  rewrite Er, Ec, Ep, Ew in E. apply app_inv_head in E. apply app_inv_tail in E. exact E.
+Qed.
+
 Section Families.
   Variable H : bytes -> bytes.
 
@@ -1037,6 +1054,19 @@ Section Families.
     destruct (drivers_ok_spec ids t D) as [A _].
     pose proof (A _ _ E1) as B1. pose proof (A _ _ E2) as B2. rewrite P1 in B1. rewrite P2 in B2. subst b1 b2.
     destruct (encode_c_inj_gen H sp _ _ G W1 W2 E) as (_ & Eb & _). simpl in Eb. discriminate.
+  Qed.
+
+  (* order and multiplicity of the -arch arguments are covered by the result key *)
+  Theorem arch_list_covered_c sp flow r p1 p2 :
+    spec_good sp -> flow = expected_flow_c ->
+    pa_common p1 = pa_common p2 -> pa_profile p1 = pa_profile p2 ->
+    wf_c sp (set_args r (hashed_args flow p1)) = true -> wf_c sp (set_args r (hashed_args flow p2)) = true ->
+    encode_c H sp (set_args r (hashed_args flow p1)) = encode_c H sp (set_args r (hashed_args flow p2)) ->
+    pa_arch p1 = pa_arch p2.
+  Proof.
+    intros G Ef Ec Ep W1 W2 E. subst flow.
+    destruct (encode_c_inj_gen H sp _ _ G W1 W2 E) as (_ & _ & _ & Ea & _). simpl in Ea.
+    exact (flow_c_arch p1 p2 Ec Ep Ea).
   Qed.
 
   Theorem boundary_shift_c sp r pre a b s post :
@@ -1142,6 +1172,18 @@ Section Families.
     pose proof (pp_components sp r1 r2 G W1 W2 Hinj Hinj2 E) as Ec. apply canon_p_inv in Ec.
     unfold one_differs_p in Hone. cbv zeta in Hone.
     destruct Hone as [Hd|[Hd|[Hd|[Hd|[Hd|[Hd|[Hd|[Hd|Hd]]]]]]]]; tauto.
+  Qed.
+
+  Theorem arch_list_covered_p sp flow r p1 p2 :
+    spec_good sp -> flow = expected_flow_p ->
+    pa_pre p1 = pa_pre p2 -> pa_common p1 = pa_common p2 -> pa_profile p1 = pa_profile p2 -> pa_cwd p1 = pa_cwd p2 ->
+    wf_p sp (set_args r (hashed_args flow p1)) = true -> wf_p sp (set_args r (hashed_args flow p2)) = true ->
+    encode_pp H sp (set_args r (hashed_args flow p1)) = encode_pp H sp (set_args r (hashed_args flow p2)) ->
+    pa_arch p1 = pa_arch p2.
+  Proof.
+    intros G Ef Er Ec Ep Ew W1 W2 E. subst flow.
+    destruct (encode_pp_inj H H_hex sp _ _ G W1 W2 E) as (_ & _ & _ & Ea & _). simpl in Ea.
+    exact (flow_p_arch p1 p2 Er Ec Ep Ew Ea).
   Qed.
 
   Theorem boundary_shift_p sp r pre a b s post :
